@@ -35,8 +35,8 @@ def zlit(x):
     return "(%d)" % x if x < 0 else "%d" % x
 
 
-def p_arr(tk):
-    """-> (ty, shape list, [elem terms])"""
+def p_arr(tk, build=True):
+    """-> (ty, shape list, [elem terms]); build=False only walks the tokens"""
     assert tk.next() == "a"
     ty = tk.next()
     rank = int(tk.next())
@@ -45,6 +45,13 @@ def p_arr(tk):
     for d in shape:
         n *= d
     elems = []
+    if not build:
+        if ty == "b":
+            for _ in range(n):
+                p_arr(tk, False)
+        else:
+            tk.i += n
+        return ty, shape, None
     for _ in range(n):
         if ty == "n":
             elems.append("ENum %s" % zlit(tk.next()))
@@ -75,6 +82,23 @@ def p_amt(tok):
         return special[tok]
     assert tok.startswith("i")
     return "AInt %s" % zlit(tok[1:])
+
+
+def parse_info(line):
+    """cheap scan of a compact case: argument shapes/types and program length only"""
+    tk = Toks(line)
+    if tk.next() != "f0":
+        tk.i += 2
+    tk.next()
+    k = int(tk.next())
+    for _ in range(k):
+        if tk.next() == "OLit":
+            tk.i += 2
+            m = int(tk.next())
+            tk.i += m
+    tk.next()
+    stack = [p_arr(tk, False) for _ in range(int(tk.next()))]
+    return {"stack": stack, "out": None, "nops": k}
 
 
 def parse_case(line):
@@ -226,8 +250,9 @@ def features(line, crash=False):
         f.append("empty-needle")
     if st and any(0 in a[1] for a in st[:2 if op[:3] in ("OP2", "OMa", "OCo", "OJo", "OMe", "OIn", "OFi") else 1]):
         f.append("empty-axis")
-    if (op.endswith("ATake") or op.endswith("APick")) and st and 0 in st[0][1]:
-        f.append("empty-array")
+    zero_amt = bool(re.search(r"\bi0\b", head)) or (op.startswith("OAmt") and any(e == "ENum 0" for e in (info["stack"][0][2] or [])))
+    if (op.endswith("ATake") or op.endswith("APick")) and st and (0 in st[0][1] or (zero_amt and op.endswith("ATake"))):
+        f.append("empty-array")   # the array, or the result of an earlier axis, has no elements
     outcome = "impl-crash" if crash else "impl-error" if line.rstrip().endswith(" err") else "impl-ok"
     return ",".join(sorted(set(f)) + [outcome])
 
@@ -284,7 +309,8 @@ CARVE_OUTS = [
     "keep: counts longer than the array, non-integer scalar count, non-number fill",
     "memberof/indexin: searched-for array of rank lower than the rows of the searched-in array, mismatching cell shape, scalar searched-in array, different element types",
     "find: pattern of higher rank than the array, empty pattern, scalar array, different element types, any fill value set",
-    "un box of a non-box or of a non-scalar box array; range/where of box arrays and of |n| > 4096",
+    "un box of a non-box or of a non-scalar box array; range/where of box arrays and of |n| > 4096; range of a vector longer than 8",
+    "resource guards of the reference: take amounts / reshape dims / keep counts beyond 64, results beyond 100000 elements",
 ]
 
 
@@ -311,7 +337,10 @@ def run(r):
         r.broken_obligation("tie-harness", "c08 tie failed to run", (out[-1000:] + err[-2000:]))
         return
     for c in cases:
-        c["term"], c["info"] = parse_case(c["line"])
+        if quick:
+            c["term"], c["info"] = parse_case(c["line"])
+        else:
+            c["info"] = parse_info(c["line"])
 
     mism, unspec = [], []
     if quick:
@@ -337,6 +366,8 @@ def run(r):
         idx = list(range(0, len(cases), step)) + mism[:200]
         idx = sorted(set(idx))
         sample = [cases[i] for i in idx]
+        for c in sample:
+            c["term"], _ = parse_case(c["line"])
         m2, u2, failed = evaluate_coq(sample)
         for si, o in failed:
             r.broken_obligation("tie-eval", "Coq re-evaluation shard %d failed" % si, o)
@@ -407,7 +438,10 @@ def run(r):
             key = "prim:%s/%s" % (opname, features(l["line"], crash=i in crashes))
             single = l["line"]
         else:
-            key = "prog:%s" % c["src"]
+            names = [o.split(":")[-1] for o in c["ops"]]
+            fused = [(x, y) for x, y in zip(names, names[1:]) if x in ("ORise", "OFall") and y in ("OFirst", "OLast")]
+            # no single step diverges: the composition itself does (fused `first rise` etc.)
+            key = ("fused:%s+%s/%s" % (fused[0][0], fused[0][1], "impl-error" if c["err"] else "impl-ok")) if fused else "prog:%s" % c["src"]
             single = None
         reported[key] += 1
         if reported[key] > 1:
